@@ -19,8 +19,10 @@ _ACE_CACHE: dict = {}
 _RULE_CACHE: dict = {}
 
 
-def alphabets(seed: int, platform: str, groups: bool):
-    al = G.field_alphabets(seed, platform, groups=groups)
+def alphabets(seed: int, platform: str, groups: bool, small: bool = False):
+    """Field alphabets of the pair space; `small` = the reduced alphabets used for the deepest
+    deviation bound (three deviating positions)."""
+    al = G.field_alphabets(seed, platform, groups=groups, small=small)
     return {f: al[f] for f in PFIELDS}
 
 
